@@ -568,28 +568,11 @@ Definition c10_sc_kw_class (pd : parsed) : bool :=
                                       end) (evariants sh)) (p_enums pd) ||
   existsb (fun a => c10_sc_kw (original (aid a)) || existsb c10_sc_kw (agenerics a) || c10_sc_rtype_kw (atype a)) (p_aliases pd).
 
-(* C10-scala-toplevel-alias: under a package name without a dot neither `package object x {` nor `package x {` is
-   printed, so the type aliases (and the UByte .. ULong helper aliases) stand at the top level of the compilation
-   unit, where Scala 2 admits only classes, objects, traits, imports and packagings. *)
-Fixpoint c10_sc_unsigned_in (t : rtype) : bool :=
-  match t with
-  | RSimple _ => false
-  | RGeneric _ ps => existsb c10_sc_unsigned_in ps
-  | RVec x | RSlice x | ROption x | RArray x _ => c10_sc_unsigned_in x
-  | RHashMap k v => c10_sc_unsigned_in k || c10_sc_unsigned_in v
-  | RPrim (PU8 | PU16 | PU32 | PU53 | PU64 | PUSize) => true
-  | RPrim _ => false
-  end.
-Definition c10_sc_any_unsigned (pd : parsed) : bool :=
-  existsb (fun a => c10_sc_unsigned_in (atype a)) (p_aliases pd) ||
-  existsb (fun s => existsb (fun f => c10_sc_unsigned_in (fty f)) (sfields s)) (p_structs pd) ||
-  existsb (fun e => existsb (fun v => match v with
-                                      | VUnit _ => false
-                                      | VTuple t _ => c10_sc_unsigned_in t
-                                      | VAnon fs _ => existsb (fun f => c10_sc_unsigned_in (fty f)) fs
-                                      end) (evariants (enum_shared e))) (p_enums pd).
-Definition c10_sc_toplevel_class (package : str) (pd : parsed) : bool :=
-  negb (contains_char 46 package) && (match p_aliases pd with [] => false | _ => true end || c10_sc_any_unsigned pd).
+(* (C10-scala-toplevel-alias - under a package name without a dot neither `package object x {` nor `package x {` was
+   printed, so the type aliases and the UByte .. ULong helper aliases stood at the top level of the compilation unit, where
+   Scala 2 admits only classes, objects, traits, imports and packagings - is repaired in /repo: scala.rs
+   begin_package_object / begin_package always open a block named by the last segment of the package name.  The class is
+   gone; the package name stays a parameter of known_C10_sc_grammar so that the callers keep one signature.) *)
 
 (* C10-scala-content-key: the content key of a tagged enum is printed, as it is, as the name of the only parameter of every
    case class that carries a payload (`case class V(content: T)`): a key with a dash or a leading digit is not an id. *)
@@ -604,5 +587,4 @@ Definition c10_sc_content_class (pd : parsed) : bool :=
 
 Definition known_C10_sc_grammar (package : str) (pd : parsed) : list string :=
   (if c10_sc_kw_class pd then ["C10-scala-keyword-name"%string] else []) ++
-  (if c10_sc_toplevel_class package pd then ["C10-scala-toplevel-alias"%string] else []) ++
   (if c10_sc_content_class pd then ["C10-scala-content-key"%string] else []).
